@@ -581,4 +581,156 @@ def deExpLegal (pcZero pcOne : Bool) (dim : Nat) (mask : List Bool) : Bool :=
   (List.range dim).any fun start => (List.range dim).any fun r =>
     mask == cyclicRun dim start (r + 1) && (!pcOne || r + 1 == dim) && (!pcZero || r == 0)
 
+/-- `gen_range(0..problem.dimension())` panics for a zero-dimensional problem as soon as there is a
+(mutant, base) pair to cross; otherwise `deCross` per pair. -/
+def deCrossExec (dim : Nat) (mask : List Bool) (mutant base : List α) : Option (List α) :=
+  if dim = 0 then none else deCross dim mask mutant base
+
+/-! ## 5. Parameters in the state: `init`, run-time adaptation, `execute` reads the STATE
+
+`Component::init` of the rate-gated mutations inserts `MutationStrength<Self>` / `MutationRate<Self>`
+with the constructor's values; anything may overwrite them afterwards (`set_value`, a mapping
+component as in `heuristics/iwo.rs`); `execute` reads the values from the state, never `self.*`. -/
+
+/-- The two adaptable states of one component instance. -/
+structure MutParams (F : Type) where
+  strength : Param F
+  rate : Param F
+
+/-- `init`: `state.insert(MutationStrength::<Self>::new(self.std_dev)); state.insert(MutationRate::<Self>::new(self.rm))`. -/
+def mutInit {F : Type} (strength rate : Param F) : MutParams F := ⟨strength, rate⟩
+
+/-- Whatever happens between `init` and `execute`: each state is kept (`none`) or overwritten. -/
+def mutAdapt {F : Type} (s : MutParams F) (newStrength newRate : Option (Param F)) : MutParams F :=
+  ⟨newStrength.getD s.strength, newRate.getD s.rate⟩
+
+section StateRuns
+variable {F : Type} [LE F] [DecidableLE F] [OfNat F 0] [OfNat F 1] [OfNat F 2]
+
+/-- `gen_bool(rm)` never fires: the rate is the number 0. -/
+def rateIsZero : Param F → Bool
+  | .fin x => decide (x ≤ 0) && decide (0 ≤ x)
+  | _ => false
+
+/-- `gen_bool(rm)` always fires: the rate is the number 1. -/
+def rateIsOne : Param F → Bool
+  | .fin x => decide (x ≤ 1) && decide (1 ≤ x)
+  | _ => false
+
+/-- The rate-gated loop over the whole population: one mask and one list of replacement values per
+solution (`for solution in population { for x in solution { if gen_bool(rm) { *x = … } } }`). -/
+def gatedPop : List (List Bool) → List (List α) → List (List α) → List (List α)
+  | m :: ms, v :: vs, s :: ss => gated m v s :: gatedPop ms vs ss
+  | _, _, ss => ss
+
+/-- Legal witness of a whole execution: one legal mask per solution. -/
+def masksLegal (rate : Param F) : List (List Bool) → List (List α) → Bool
+  | m :: ms, s :: ss => maskLegal (rateIsZero rate) (rateIsOne rate) m s.length && masksLegal rate ms ss
+  | [], [] => true
+  | _, _ => false
+
+/-- `init` with the constructor's values, adaptation, then `NormalMutation::execute` on the state. -/
+def normalRun (ctorStrength ctorRate : Param F) (newStrength newRate : Option (Param F))
+    (masks : List (List Bool)) (vals pop : List (List α)) : Outcome (List (List α)) :=
+  let st := mutAdapt (mutInit ctorStrength ctorRate) newStrength newRate
+  normalExec st.strength st.rate (gatedPop masks vals pop)
+
+/-- Likewise `UniformMutation`. -/
+def uniformRun (ctorBound ctorRate : Param F) (newBound newRate : Option (Param F))
+    (masks : List (List Bool)) (vals pop : List (List α)) : Outcome (List (List α)) :=
+  let st := mutAdapt (mutInit ctorBound ctorRate) newBound newRate
+  uniformExec st.strength st.rate (gatedPop masks vals pop)
+
+/-- `BitFlipMutation`, `PartialRandomSpread`, `PartialRandomBitstring`: only a rate is stored. -/
+def rateRun (ctorRate : Param F) (newRate : Option (Param F))
+    (masks : List (List Bool)) (vals pop : List (List α)) : Outcome (List (List α)) :=
+  let st := mutAdapt (mutInit ctorRate ctorRate) none newRate
+  rateExec st.rate (gatedPop masks vals pop)
+end StateRuns
+
+/-! ## 6. Constructors: which parameters each public constructor stores -/
+
+/-- The public constructors of the rate-gated mutations (`new`, `new_with_id`, `from_params` store
+their arguments unchanged). -/
+inductive MutCtor where
+  | new            -- `new`, `new_with_id::<I>`, `from_params`
+  | newDev         -- `NormalMutation::new_dev(std_dev)`          : rate 1
+  | newBound       -- `UniformMutation::new_bound(bound)`        : rate 1
+  | newFull        -- `PartialRandomSpread::new_full()`, `ScrambleMutation::new_full()`, `PartialRandomBitstring::new_full(p)` : rate 1
+  | newUniform     -- `PartialRandomBitstring::new_uniform(rm)`  : p = 0.5
+  | newUniformFull -- `PartialRandomBitstring::new_uniform_full()` : p = 0.5, rate 1
+  deriving Repr, DecidableEq
+
+/-- `(p, rate)` stored by a constructor called with `(p, rate)` (arguments the constructor does not
+take are ignored); `half` is the literal `0.5`. -/
+def mutCtorParams {F : Type} [OfNat F 1] (half : F) (c : MutCtor) (p rate : F) : F × F :=
+  match c with
+  | .new => (p, rate)
+  | .newDev | .newBound | .newFull => (p, 1)
+  | .newUniform => (half, rate)
+  | .newUniformFull => (half, 1)
+
+/-- The constructors of the four crossover components. -/
+inductive RecCtor where
+  | new | newInsertSingle | newInsertBoth
+  deriving Repr, DecidableEq
+
+/-- The `insert_both` flag a crossover constructor stores. -/
+def recCtorBoth (c : RecCtor) (both : Bool) : Bool :=
+  match c with
+  | .new => both
+  | .newInsertSingle => false
+  | .newInsertBoth => true
+
+/-! ## 7. `recombination()` as a whole (recombination/mod.rs:51-88)
+
+`pop`, `for chunk in solutions.chunks(2)`, one `recombine` call per pair, `push`. A panic inside a
+`recombine` call (helper contract) aborts the whole execution: `none`. -/
+
+/-- What a pair contributes to the new population. -/
+def emitPair {β : Type} (p1 p2 : β) : OptPair β → List β
+  | .none => [p1, p2]
+  | .single c => [c]
+  | .both c1 c2 => [c1, c2]
+
+/-- `recombination(component, …)`: `rec p1 p2 w` is the component's `recombine` on the pair as a
+function of the pair's witness `w`; an odd remainder passes through. -/
+def recombinationRun {β W : Type} (rec : β → β → W → Option (OptPair β)) : List β → List W → Option (List β)
+  | p1 :: p2 :: rest, w :: ws =>
+    match rec p1 p2 w with
+    | none => none
+    | some r =>
+      match recombinationRun rec rest ws with
+      | none => none
+      | some out => some (emitPair p1 p2 r ++ out)
+  | ps, _ => some ps
+
+/-- `recombine` of the four shipped crossovers: the uniform draw `u` decides through `u < pc`, the
+helper (a function of the rest of the witness) is called only when the pair is crossed. -/
+def gateRecombine {β W F : Type} [LT F] [DecidableLT F] (pc : F) (insertBoth : Bool)
+    (helper : β → β → W → Option (β × β)) (p1 p2 : β) (w : F × W) : Option (OptPair β) :=
+  if crossedBy w.1 pc then (helper p1 p2 w.2).map (OptPair.fromPair · insertBoth) else some .none
+
+/-! ## 8. `mutation()` — the default `execute` for implementors of `Mutation` (mutation/mod.rs:44-57)
+
+`pop`; `for solution in population { component.mutate(solution, …)? }`; `push`. The `?` returns before
+the `push`: on the first `Err` the population is gone and the stack is one lower. -/
+
+/-- The loop: solutions mutated so far, or the first `Err`. -/
+def mutateAll {β : Type} (mutate : β → Option β) : List β → Option (List β)
+  | [] => some []
+  | x :: xs =>
+    match mutate x with
+    | none => none
+    | some y => (mutateAll mutate xs).map (y :: ·)
+
+/-- `mutation()` on a stack of populations (top first): result flag (`true` = `Ok`) and the stack afterwards;
+an empty stack panics in `pop` (`none`). -/
+def mutationRun {β : Type} (mutate : β → Option β) : List (List β) → Option (Bool × List (List β))
+  | [] => none
+  | top :: rest =>
+    match mutateAll mutate top with
+    | some top' => some (true, top' :: rest)
+    | none => some (false, rest)
+
 end MahfModel.Variation
